@@ -1,6 +1,4 @@
 //! [Container] view can specify the size and alignment for its child view
-use std::ops::Add;
-
 use serde::{Deserialize, Serialize, de::DeserializeSeed};
 
 use super::{
@@ -223,11 +221,11 @@ impl<V: View> View for Container<V> {
             row: self
                 .align_vertical
                 .align(child_size.height, child_size_max.height)
-                .add(self.margins.top),
+                .saturating_add(self.margins.top),
             col: self
                 .align_horizontal
                 .align(child_size.width, child_size_max.width)
-                .add(self.margins.left),
+                .saturating_add(self.margins.left),
         });
 
         // try to shrink container if necessary
@@ -235,16 +233,16 @@ impl<V: View> View for Container<V> {
             container_size.height = child_layout
                 .size()
                 .height
-                .add(self.margins.top)
-                .add(self.margins.bottom)
+                .saturating_add(self.margins.top)
+                .saturating_add(self.margins.bottom)
                 .clamp(ct.min.height, ct.max.height)
         }
         if self.align_horizontal == Align::Shrink {
             container_size.width = child_layout
                 .size()
                 .width
-                .add(self.margins.left)
-                .add(self.margins.right)
+                .saturating_add(self.margins.left)
+                .saturating_add(self.margins.right)
                 .clamp(ct.min.width, ct.max.width)
         }
 
